@@ -10,7 +10,7 @@ import math
 ALPHA = [[1.5, -2.25, 1e16, math.inf], [0.75, 3.0, -1e16, float('nan')], [2.5, 1e16, -math.inf, 0.0], [1.25, float('nan'), 1e16, -0.5]]
 
 
-def k_harness(name, mode, n, ckpt, seed, twice=False, outputs=True, concrete=False, required=True):
+def k_harness(name, mode, n, ckpt, seed, twice=False, outputs=True, concrete=False, required=True, variant='fin'):
     """ckpt: number of history inputs before the checkpoint, or 'reset' (inputs then reset).
     outputs=False: bytes fixpoint only, history = every f64 bit pattern (data movement only);
     outputs=True: history symbolic over a 4-value alphabet (incl. 1e16 and a non-finite value), then the
@@ -18,16 +18,24 @@ def k_harness(name, mode, n, ckpt, seed, twice=False, outputs=True, concrete=Fal
     per = specs(name, n)
     tag = 'reset' if ckpt == 'reset' else 'h%d' % ckpt
     table = ALPHA[seed % len(ALPHA)]
-    b = KB('c06_%s_%s_%s_n%d_%s%s' % (('outc' if concrete else 'out') if outputs else 'bytes', name.lower(), mode, n, tag, '_x2' if twice else ''), unwind=max(per + [4]) * 2 + 30, required=required,
+    import math as _m
+    fin = [x for x in table if _m.isfinite(x)]
+    nonfin = [x for x in table if not _m.isfinite(x)][0]
+    def conc_val(i, nh_):
+        if variant == 'zeros': return 0.0
+        if variant == 'nonfin' and i == nh_ - 1: return nonfin          # the non-finite value is still inside the window at the checkpoint
+        return fin[i % len(fin)]
+    vtag = '' if (not concrete or variant == 'fin') else '_' + variant
+    b = KB('c06_%s_%s_%s_n%d_%s%s%s' % (('outc' if concrete else 'out') if outputs else 'bytes', name.lower(), mode, n, tag, '_x2' if twice else '', vtag), unwind=max(per + [4]) * 2 + 30, required=required,
            family='K:C06 %s %s periods=%s checkpoint=%s%s: serde round trip through the derived impls (token-stream format), %s' % (name, mode, per, tag, ' (two round trips)' if twice else '',
-                                                                                   ('bytes fixpoint + future outputs' + (' (concrete history)' if concrete else '')) if outputs else 'bytes fixpoint, every f64'),
+                                                                                   ('bytes fixpoint + future outputs' + ((' (concrete history: %s)' % {'fin': 'finite values incl. +-1e16', 'nonfin': 'finite values, then a non-finite one still in the window', 'zeros': 'all zeros'}[variant]) if concrete else '')) if outputs else 'bytes fixpoint, every f64'),
            bounds=dict(engine='K', indicator=name, input=mode, periods=per, checkpoint=tag,
                        history=(('concrete values drawn from %r (rotated by seed)' % (table,)) if concrete else ('each input symbolic over the alphabet %r' % (table,))) if outputs else 'every f64 bit pattern',
                        continuation=('%d fixed finite inputs' % (n + 2)) if outputs else 'none', round_trips=2 if twice else 1))
     k = KOps(b)
     k.new('a', name, per)
     nh = (n + 1) if ckpt == 'reset' else ckpt
-    for i in range(nh): k.feed('a', mode, (('lit', table[(i + seed) % len(table)]) if concrete else ('pick', table)) if outputs else 'any', 'h%d' % i)
+    for i in range(nh): k.feed('a', mode, (('lit', conc_val(i, nh)) if concrete else ('pick', table)) if outputs else 'any', 'h%d' % i)
     if ckpt == 'reset': k.reset('a')
     b.emit('let bytes = to_tok(&a).unwrap();')
     b.emit('let mut r: %s = from_tok(&bytes).unwrap();' % tyname(name))
@@ -92,6 +100,8 @@ def main(chk):
             if name in HARD and n > 2: continue
             for ck in ((0, n + 1, 'reset') if q else (0, 1, n, n + 2, 'reset')):
                 hs.append(k_harness(name, mode, n, ck, chk.seed, concrete=True, required=req))
+            for var in ('nonfin', 'zeros'):          # values that "is this the default / empty?" guesses get wrong
+                hs.append(k_harness(name, mode, n, n + 1, chk.seed, concrete=True, required=req, variant=var))
             hs.append(k_harness(name, mode, n, n + 1, chk.seed, outputs=False, required=req))
             if name in CHEAP or not q:
                 hs.append(k_harness(name, mode, n, n + 1, chk.seed, required=(name in CHEAP)))
